@@ -16,6 +16,20 @@ struct gv_dms {       /* what the formatting tail is given / what the string sho
    : (prec) == 3 ? (sec) >= 59.9995 : (prec) == 4 ? (sec) >= 59.99995 : (prec) == 5 ? (sec) >= 59.999995         \
    : (prec) == 6 ? (sec) >= 59.9999995 : (prec) == 7 ? (sec) >= 59.99999995 : (sec) >= 59.999999995)
 
+#ifndef M_PI
+#define M_PI 3.14159265358979323846264338327950288419716939937510   /* as in gnu_gama/gon2deg.h */
+#endif
+/* observation points of rad2dms / dms2rad (injected in front of the return statement) */
+#define GV_OBS_DMS(d, m, sec) do {                                                                             \
+    __CPROVER_assert((d) >= 0 && (d) <= 359, "rad2dms: degrees field in 0..359 (angle normalised to [0, 360))");   \
+    __CPROVER_assert((m) >= 0 && (m) <= 59, "rad2dms: minutes field in 0..59");                                    \
+    __CPROVER_assert((sec) >= 0 && (sec) < 60, "rad2dms: seconds value in [0, 60)");                               \
+    __CPROVER_assert((d) == (double)(int)(d) && (m) == (double)(int)(m), "rad2dms: degrees and minutes fields are integers"); \
+  } while (0)
+#define GV_OBS_RAD(r) do {                                                                                     \
+    __CPROVER_assert((r) >= 0, "dms2rad: result >= 0");                                                            \
+    __CPROVER_assert((r) < 2 * M_PI, "dms2rad: result < 2 pi (angle normalised to [0, 2 pi))");                    \
+  } while (0)
 double gv_gon0;        /* ghost: |gon| on entry */
 int gv_exp_d, gv_exp_m; /* ghost: expected fields at a tabulated input (h_points) */
 double gv_exp_sec;
@@ -59,7 +73,37 @@ GV_CANARY("gon2deg entry");
 gv_gon0 = gon < 0 ? -gon : gon;
 //@ end
 
+//@ entry rad2dms
+GV_CANARY("rad2dms entry");
+//@ entry dms2rad
+GV_CANARY("dms2rad entry");
+//@ end
+
 //@ harness
+#ifdef GV_EXCL_TINY_NEG   /* exclusion predicate of the finding "tiny negative angle normalises to the full turn" */
+#define GV_NOT_TINY_NEG(x) __CPROVER_assume(!((x) < 0 && (x) > -1e-9))
+#else
+#define GV_NOT_TINY_NEG(x)
+#endif
+void h_rad2dms(void)
+{
+  double rad;
+  __CPROVER_assume(rad >= -4 * M_PI && rad <= 4 * M_PI);
+  GV_NOT_TINY_NEG(rad);
+  double w_x = rad;
+  double r = rad2dms(rad);
+  GV_CANARY("h_rad2dms end");
+}
+
+void h_dms2rad(void)
+{
+  double dms;
+  __CPROVER_assume(dms >= -720 && dms <= 720);
+  GV_NOT_TINY_NEG(dms);
+  double w_x = dms;
+  double r = dms2rad(dms);
+  GV_CANARY("h_dms2rad end");
+}
 void h_gon2deg(void)
 {
   double gon;
@@ -113,5 +157,27 @@ void h_points(void)
   struct gv_dms r = gon2deg(gv_points[k].gon, sign, prec);
   __CPROVER_assert(r.negative == (gv_points[k].gon < 0), "sign flag follows the sign of the input");
   GV_CANARY("h_points end");
+}
+
+/* rad2dms / dms2rad at concrete inputs; expected values computed with 50-digit decimal arithmetic from the
+   definitions (degrees = rad*180/pi mod 360 packed as dd.mmss; radians = (d + m/60 + s/3600) pi/180 mod 2 pi);
+   no point is near a field boundary */
+static const double gv_rad2dms_pts[6][2] = {
+  { 1.0, 57.174480624709638 }, { -2.5, 216.453798438225903 }, { 4.0, 229.105922498838538 },
+  { 0.123456, 7.042462792004152 }, { 7.5, 69.430604685322265 }, { -0.001, 359.563373519375318 } };
+static const double gv_dms2rad_pts[7][2] = {
+  { 90.3015, 1.579595695107035 }, { -45.1020, 5.494781298959259 }, { 200.0001, 3.490663352125470 },
+  { 359.5959, 6.283180459042775 }, { -359.5959, 0.000004848136811 }, { 400.3030, 0.707003791162036 },
+  { 0.2945, 0.008653924207805 } };
+
+void h_angle_points(void)
+{
+  int k, j;
+  __CPROVER_assume(0 <= k && k < 6 && 0 <= j && j < 7);
+  double a = rad2dms(gv_rad2dms_pts[k][0]);
+  __CPROVER_assert(a - gv_rad2dms_pts[k][1] <= 1e-9 && gv_rad2dms_pts[k][1] - a <= 1e-9, "rad2dms value at the tabulated input (dd.mmss packing of rad*180/pi mod 360)");
+  double b = dms2rad(gv_dms2rad_pts[j][0]);
+  __CPROVER_assert(b - gv_dms2rad_pts[j][1] <= 1e-9 && gv_dms2rad_pts[j][1] - b <= 1e-9, "dms2rad value at the tabulated input ((d + m/60 + s/3600) pi/180 mod 2 pi)");
+  GV_CANARY("h_angle_points end");
 }
 //@ end
